@@ -69,7 +69,7 @@ pub fn generate(seed: u64, tier: Tier) -> Scenario {
             }
             coin += sess::approx_min_ada(&knobs, 60 * assets.len() as u64);
         }
-        outs.push(OutSpec { addr: sess::gen_key_addr(&mut r, NKEYS, 30), coin, assets, datum: None, script_ref: None, min_coin: false });
+        outs.push(OutSpec { addr: sess::gen_key_addr(&mut r, NKEYS, 30), coin, assets, datum: None, script_ref: None, min_coin: false, form: 0 });
     }
     let out_total: u64 = outs.iter().map(|o| o.coin).fold(0u64, |a, b| a.saturating_add(b));
 
